@@ -115,7 +115,8 @@ func RulePeerClassification(p *core.Program, r *core.Report, rule string) {
 			return st
 		}
 		gw.OnBranch = func(b *ast.BranchStmt, states uint64, f facts.Formula) {
-			if len(gw.Loops) > 0 && gbad == "" {
+			// leaving the iteration is a drop only on a path on which the peer has not been generated yet
+			if len(gw.Loops) > 0 && gbad == "" && (states&1 != 0 || b.Tok != token.CONTINUE) {
 				gbad = b.Tok.String() + " at " + p.Pos(b.Pos())
 			}
 		}
